@@ -67,4 +67,17 @@ Qed.
 Theorem symm_mm_addr (right_row : bool) (c0 cs i j : Z) :
   cppblas_symm_addr right_row c0 cs i j = if right_row then c0 + i * cs + j else c0 + i + j * cs.
 Proof. unfold cppblas_symm_addr, f_symm_addr. destruct right_row; lia. Qed.
+
+(* the statement recorded for row i of (band matrix) x (active vector) is the differential of the defining sum over the
+   engine's window of stored columns [j_start, j_end): the multiplier of column j is the engine's element (i,j) and the
+   gradient index is that of element j of the vector, whatever the vector's stride *)
+Theorem band_statement_is_differential (row_major : bool) (L U dim : Z) (mem : Z -> T) (left_ptr off right_index incx i : Z) (g : Z -> T) :
+  ops_val O (band_statement row_major L U dim mem left_ptr off right_index incx i) g =
+  zsum O (band_j_end i U dim - band_j_start i L)
+       (fun q => omul O (mem (left_ptr + index (if row_major then BandR else BandC) L U i (band_j_start i L + q) off))
+                        (g (right_index + (band_j_start i L + q) * incx))).
+Proof.
+  unfold band_statement. rewrite (ops_val_push O). apply (zsum_ext O). intros q Hq.
+  unfold band_index_start, band_index_stride, band_grad_start, band_grad_stride, index. destruct row_major; f_equal; f_equal; lia.
+Qed.
 End BandProofs.
